@@ -1,6 +1,6 @@
 #!/usr/bin/env python3
 import json, sys
-SITES=["?","attemptAcquire","attemptPriorityTakeover","heartbeatLoop","validateToken","checkKeyAndReelect","verifyLeadershipAfterReconnect","StopWithContext","watchLoop","Start","attemptAcquireWithRetry","handleWatchEvent","validationLoop","ValidateToken","ValidateTokenOrDemote","Stop","becomeLeader","becomeFollower","handleReconnect","handleGracePeriodExpired","handleDisconnect","handleHeartbeatFailure","handleHealthCheckFailure","handleValidationFailure","handleReconnectVerificationFailed"]
+SITES=["?","attemptAcquire","attemptPriorityTakeover","heartbeatLoop","validateToken","checkKeyAndReelect","verifyLeadershipAfterReconnect","StopWithContext","watchLoop","Start","attemptAcquireWithRetry","handleWatchEvent","validationLoop","ValidateToken","ValidateTokenOrDemote","Stop","becomeLeader","becomeFollower","handleReconnect","handleGracePeriodExpired","handleDisconnect","handleHeartbeatFailure","handleHealthCheckFailure","handleValidationFailure","handleReconnectVerificationFailed","recordHeldByOther"]
 KINDS={1:"Create",2:"Update",3:"Get",4:"Delete",5:"Watch"}
 LOG={1:"election_started",2:"attempting_acquire_with_retry",3:"acquire_failed_max_retries",4:"acquire_retry",5:"acquire_failed",6:"acquire_success",7:"state_transition",8:"leader_promoted",9:"priority_takeover_success",10:"leader_demoted",11:"election_stopped",12:"shutdown_timeout",13:"shutdown_cancelled",14:"key_deletion_failed",15:"key_deleted",16:"ondemote_callback_timeout",17:"token_validation_failed",18:"health_check_failed",19:"health_check_recovered",20:"heartbeat_failed",21:"leadership_taken_over",22:"heartbeat_recovered",23:"demoting_due_to_heartbeat_failure",24:"demoting_due_to_health_check_failure",25:"watch_failed",26:"watch_started",27:"watch_closed",28:"key_not_found_triggering_reelection",29:"key_empty_triggering_reelection",30:"leader_changed_periodic_check",31:"watch_event_key_deleted",32:"watch_event_key_empty",33:"leadership_lost_via_watcher",34:"leader_changed",35:"priority_takeover_opportunity",36:"priority_takeover_failed",37:"token_validation_recovered",38:"demoting_due_to_validation_failure",39:"connection_disconnected",40:"connection_reconnected_before_grace_period",41:"demoting_due_to_connection_loss",42:"connection_reconnected",43:"verifying_leadership_after_reconnect",44:"reconnect_verification_failed",45:"reconnect_verification_success",46:"demoting_due_to_reconnect_verification_failure"}
 API={1:"Start",2:"Stop",3:"StopWithContext",4:"ValidateToken",5:"ValidateTokenOrDemote",7:"conn"}
